@@ -1,6 +1,9 @@
 // race_c20.cpp - C20: generated reader programs over one shared const container, writers on distinct containers, under ThreadSanitizer.
 // A tape = [setup op][thread ops...]; every reader thread's results must equal the single-threaded results; TSan must stay silent.
 #include <atomic>
+#if __cplusplus >= 202002L
+#include <compare>
+#endif
 #include <cstdlib>
 #include <set>
 #include <thread>
@@ -17,6 +20,10 @@
 #include "vf_core.hpp"
 
 using namespace vf;
+
+#ifndef VF_RACE_NAME
+#define VF_RACE_NAME "race_c20"
+#endif
 
 struct FooM {  // owns memory, like the test suite's Foo
   int *p;
@@ -38,6 +45,9 @@ struct FooM {  // owns memory, like the test suite's Foo
   int v() const { return *p; }
   friend bool operator==(const FooM &a, const FooM &b) { return a.v() == b.v(); }
   friend bool operator!=(const FooM &a, const FooM &b) { return a.v() != b.v(); }
+#if __cplusplus >= 202002L
+  friend std::strong_ordering operator<=>(const FooM &a, const FooM &b) { return a.v() <=> b.v(); }
+#endif
   friend bool operator<(const FooM &a, const FooM &b) { return a.v() < b.v(); }
   friend bool operator>(const FooM &a, const FooM &b) { return a.v() > b.v(); }
   friend bool operator<=(const FooM &a, const FooM &b) { return a.v() <= b.v(); }
@@ -70,6 +80,23 @@ static void fill(C &c, const std::vector<int> &vals) {
   } else {
     for (int v : vals) c.push_back(E(v));
   }
+}
+
+// builds the container; a FlatSet may adopt an unsorted vector with duplicates (FlatSet(vector_type&&))
+template <class C>
+static C build(const std::vector<int> &vals, bool adopt) {
+  typedef typename C::value_type E;
+  if constexpr (IsFlat<C>::value) {
+    if (adopt) {
+      typename C::vector_type v;
+      for (size_t i = vals.size(); i > 0; --i) v.push_back(E(vals[i - 1]));
+      if (!vals.empty()) v.push_back(E(vals[0]));
+      return C(std::move(v));
+    }
+  }
+  C c;
+  fill(c, vals);
+  return c;
 }
 
 // one const operation; returns a checksum of what it observed
@@ -145,6 +172,22 @@ struct ThreadProg {
   int spin;
 };
 
+// single-pass source producing E(v), E(v+1), ...
+template <class E>
+struct CountIt {
+  typedef std::input_iterator_tag iterator_category;
+  typedef E value_type;
+  typedef std::ptrdiff_t difference_type;
+  typedef const E *pointer;
+  typedef E reference;
+  int v;
+  E operator*() const { return E(v); }
+  CountIt &operator++() { ++v; return *this; }
+  CountIt operator++(int) { CountIt t(*this); ++v; return t; }
+  friend bool operator==(const CountIt &a, const CountIt &b) { return a.v == b.v; }
+  friend bool operator!=(const CountIt &a, const CountIt &b) { return a.v != b.v; }
+};
+
 // a writer owns two container objects nobody else touches and runs every kind of mutating and comparing operation on them
 template <class C>
 static void writer_body(int rounds, int seedv) {
@@ -158,7 +201,7 @@ static void writer_body(int rounds, int seedv) {
         case 0: mine.insert(E(v)); break;
         case 1: mine.emplace(v + 1); break;
         case 2: mine.insert(mine.begin(), E(v + 2)); break;
-        case 3: other.insert(E(v)); other.emplace_hint(other.end(), v + 3); break;
+        case 3: other.insert(E(v)); other.emplace_hint(other.end(), v + 3); other.insert(CountIt<E>{v % 30}, CountIt<E>{v % 30 + 3}); break;
         case 4: sink += (mine == other) + (mine < other); break;
         case 5: if (!mine.empty()) mine.erase(mine.begin()); break;
         case 6: mine.erase(E((seedv + r) % 40)); sink += static_cast<long>(mine.count(E(v))); break;
@@ -170,7 +213,7 @@ static void writer_body(int rounds, int seedv) {
         case 0: case 1: if (sz < 12) mine.push_back(E(seedv + r)); break;
         case 2: if (sz < 12) mine.emplace(mine.begin() + sz / 2, seedv + r); break;
         case 3: if (sz < 12) mine.insert(mine.begin() + sz / 2, E(seedv)); break;
-        case 4: if (sz < 10) mine.insert(mine.begin(), 2, E(r)); break;
+        case 4: if (sz < 10) mine.insert(mine.begin(), 2, E(r)); else if (sz < 13) mine.insert(mine.begin() + sz / 2, CountIt<E>{r}, CountIt<E>{r + 2}); break;
         case 5: if (sz > 0) mine.erase(mine.begin() + sz / 2); break;
         case 6: other.assign(3, E(r)); sink += (mine == other) + (mine < other); break;
         case 7: mine.swap(other); break;
@@ -189,16 +232,20 @@ static void writer_body(int rounds, int seedv) {
 }
 
 template <class C>
-static bool run_case(const std::vector<int> &vals, const std::vector<int> &ovals, const std::vector<ThreadProg> &progs, int nwriters, int rounds) {
-  C shared_c, other_c;
-  fill(shared_c, vals);
-  fill(other_c, ovals);
+static bool run_case(const std::vector<int> &vals, const std::vector<int> &ovals, const std::vector<ThreadProg> &progs, int nwriters, int rounds, bool adopt = false) {
+  // the shared objects are not touched by anything before the threads start (their very first const accesses run concurrently);
+  // the expected results come from twins built the same way
+  C shared_c(build<C>(vals, adopt)), other_c(build<C>(ovals, adopt));
   const C &c = shared_c;
   const C &o = other_c;
-  // expected results, single-threaded
   std::vector<std::vector<long> > expect(progs.size());
-  for (size_t t = 0; t < progs.size(); ++t)
-    for (size_t k = 0; k < progs[t].ops.size(); ++k) expect[t].push_back(reader_op(c, o, progs[t].ops[k].first, progs[t].ops[k].second));
+  {
+    C twin_c(build<C>(vals, adopt)), twin_o(build<C>(ovals, adopt));
+    const C &tc = twin_c;
+    const C &to = twin_o;
+    for (size_t t = 0; t < progs.size(); ++t)
+      for (size_t k = 0; k < progs[t].ops.size(); ++k) expect[t].push_back(reader_op(tc, to, progs[t].ops[k].first, progs[t].ops[k].second));
+  }
   std::vector<std::vector<long> > got(progs.size());
   std::vector<int> bad(progs.size(), 0);
   std::atomic<int> go(0);
@@ -235,7 +282,7 @@ struct RaceInterp {
   const char *cfgname;
   FILE *transcript;
   int portability;
-  RaceInterp() : cfgname("race_c20"), transcript(0), portability(0) {}
+  RaceInterp() : cfgname(VF_RACE_NAME), transcript(0), portability(0) {}
   bool nontrivial() const { return has_feature(RF_TWO_READERS_COMMON_OP); }
 
   bool run(const Op *ops, size_t n) {
@@ -288,8 +335,8 @@ struct RaceInterp {
         case 1: run_case<amc::SmallVector<int, 16> >(vals, ovals, progs, nwriters, rounds); break;
         case 2: run_case<amc::SmallVector<FooM, 3> >(vals, ovals, progs, nwriters, rounds); if (size > 3) feature(RF_HEAP); break;
         case 3: run_case<amc::FixedCapacityVector<FooM, 16> >(vals, ovals, progs, nwriters, rounds); break;
-        case 4: run_case<amc::FlatSet<int> >(vals, ovals, progs, nwriters, rounds); feature(RF_HEAP); break;
-        case 5: run_case<amc::FlatSet<FooM, std::less<FooM>, amc::allocator<FooM>, amc::SmallVector<FooM, 4> > >(vals, ovals, progs, nwriters, rounds); break;
+        case 4: run_case<amc::FlatSet<int> >(vals, ovals, progs, nwriters, rounds, (s.a & 32) != 0); feature(RF_HEAP); break;
+        case 5: run_case<amc::FlatSet<FooM, std::less<FooM>, amc::allocator<FooM>, amc::SmallVector<FooM, 4> > >(vals, ovals, progs, nwriters, rounds, (s.a & 32) != 0); break;
         case 6: run_case<amc::SmallSet<int, 16> >(vals, ovals, progs, nwriters, rounds); break;
         case 7: run_case<amc::SmallSet<FooM, 3> >(vals, ovals, progs, nwriters, rounds); if (size > 3) { feature(RF_LARGE_SET); feature(RF_HEAP); } break;
         default: run_case<amc::SmallSet<int, 4, std::less<int>, amc::allocator<int>, amc::FlatSet<int> > >(vals, ovals, progs, nwriters, rounds); if (size > 4) { feature(RF_LARGE_SET); feature(RF_HEAP); } break;
